@@ -1612,4 +1612,381 @@ theorem entry_step (wide : Bool) (wantType : Nat) (bs : List (List Ch)) (tl rest
     subst h1 h2 h3 h4
     simp only [nameOf_ok (show OFieldOK wide nmf from hname), h5]
 
+/-! ### Numbers and permission strings read back -/
+
+def isDigit (c : Ch) : Prop := 48 ≤ c ∧ c ≤ 57
+
+/-- The accumulation step of `isint`. -/
+def isintStep (n : Nat) (c : Ch) : Nat :=
+  if n > 2147483647 / 10 ∨ (n = 2147483647 / 10 ∧ c - 48 > 2147483647 % 10) then 2147483647
+  else n * 10 + (c - 48)
+
+theorem digits_all_digit (n : Nat) : ∀ c ∈ digits n, isDigit c := by
+  induction n using Nat.strongRecOn with
+  | _ n ih =>
+    rw [digits]
+    split
+    · intro c hc
+      rcases List.mem_append.mp hc with h | h
+      · exact ih (n / 10) (by omega) c h
+      · simp at h; subst h; unfold isDigit; omega
+    · intro c hc; simp at hc; subst hc; unfold isDigit; omega
+
+theorem digits_ne_nil (n : Nat) : digits n ≠ [] := by
+  rw [digits]; split <;> simp
+
+theorem digits_foldl (n : Nat) (h : n ≤ 2147483647) : (digits n).foldl isintStep 0 = n := by
+  induction n using Nat.strongRecOn with
+  | _ n ih =>
+    rw [digits]
+    split
+    · rename_i h9
+      rw [List.foldl_append, ih (n / 10) (by omega) (by omega)]
+      simp only [List.foldl_cons, List.foldl_nil, isintStep]
+      have : ¬ (n / 10 > 2147483647 / 10 ∨ (n / 10 = 2147483647 / 10 ∧ 48 + n % 10 - 48 > 2147483647 % 10)) := by
+        omega
+      rw [if_neg this]; omega
+    · simp only [List.foldl_cons, List.foldl_nil, isintStep]
+      have : ¬ (0 > 2147483647 / 10 ∨ (0 = 2147483647 / 10 ∧ 48 + n - 48 > 2147483647 % 10)) := by omega
+      rw [if_neg this]; omega
+
+theorem isint_digits (n : Nat) (h : n ≤ 2147483647) : isint (digits n) = some (n : Int) := by
+  have hd := digits_all_digit n
+  have hany : (digits n).any (fun c => decide (c < 48 ∨ c > 57)) = false := by
+    rw [List.any_eq_false]
+    intro c hc
+    have := hd c hc; unfold isDigit at this
+    simp; omega
+  unfold isint
+  simp only [digits_ne_nil n, false_or, hany, Bool.false_eq_true, if_false]
+  have := digits_foldl n h
+  unfold isintStep at this
+  rw [this]
+
+theorem isint_nil : isint [] = none := by simp [isint]
+
+theorem isint_nondigit (b : List Ch) (h : ∃ c ∈ b, ¬ isDigit c) : isint b = none := by
+  obtain ⟨c, hc, hd⟩ := h
+  have : b.any (fun c => decide (c < 48 ∨ c > 57)) = true := by
+    rw [List.any_eq_true]
+    refine ⟨c, hc, ?_⟩
+    unfold isDigit at hd; simp; omega
+  unfold isint
+  rw [if_pos (Or.inr this)]
+
+
+/-- The three characters `append_entry` writes for a POSIX.1e permset. -/
+def rwxChars (perm : Nat) : List Ch :=
+  [if perm &&& 0o444 ≠ 0 then 114 else 45, if perm &&& 0o222 ≠ 0 then 119 else 45,
+   if perm &&& 0o111 ≠ 0 then 120 else 45]
+
+/-- ... and the permset `ismode` reads from them. -/
+def rwxVal (perm : Nat) : Nat :=
+  (if perm &&& 0o444 ≠ 0 then 4 else 0) ||| (if perm &&& 0o222 ≠ 0 then 2 else 0) |||
+  (if perm &&& 0o111 ≠ 0 then 1 else 0)
+
+theorem ismode_rwx (wide : Bool) (perm acc : Nat) : ismode wide (rwxChars perm) acc = (rwxVal perm, true) := by
+  unfold rwxChars rwxVal
+  by_cases h1 : perm &&& 0o444 ≠ 0 <;> by_cases h2 : perm &&& 0o222 ≠ 0 <;>
+    by_cases h3 : perm &&& 0o111 ≠ 0 <;> cases wide <;>
+    (first | rw [if_pos h1] | rw [if_neg h1]) <;> (first | rw [if_pos h1] | rw [if_neg h1]) <;>
+    (first | rw [if_pos h2] | rw [if_neg h2]) <;> (first | rw [if_pos h2] | rw [if_neg h2]) <;>
+    (first | rw [if_pos h3] | rw [if_neg h3]) <;> (first | rw [if_pos h3] | rw [if_neg h3]) <;> rfl
+
+theorem rwxVal_small : ∀ p : Fin 8, rwxVal p.val = p.val := by decide
+
+theorem rwxChars_clean (perm : Nat) : Clean (rwxChars perm) := by
+  intro c hc
+  unfold rwxChars at hc
+  simp only [List.mem_cons, List.not_mem_nil, or_false] at hc
+  rcases hc with h | h | h <;> subst h <;> split <;> (unfold CleanCh; decide)
+
+theorem rwxChars_nondigit (perm : Nat) : ∃ c ∈ rwxChars perm, ¬ isDigit c := by
+  refine ⟨_, List.mem_cons_self, ?_⟩
+  split <;> (unfold isDigit; decide)
+
+/-! NFSv4 permission and flag strings -/
+
+/-- A print map and the parser switch agree: every map entry is a single bit whose
+character the switch maps back to that bit, and `-` is accepted without effect. -/
+def MapOK (m tbl : List (Nat × Nat)) : Prop :=
+  (∀ x ∈ m, lookup tbl x.2 = some x.1 ∧ ∃ k, x.1 = 2 ^ k) ∧ lookup tbl 45 = some 0
+
+def maskOf (m : List (Nat × Nat)) : Nat := m.foldr (fun x acc => x.1 ||| acc) 0
+
+theorem and_two_pow_of_ne_zero (p k : Nat) (h : p &&& 2 ^ k ≠ 0) : p &&& 2 ^ k = 2 ^ k := by
+  apply Nat.eq_of_testBit_eq
+  intro i
+  rw [Nat.testBit_and, Nat.testBit_two_pow]
+  by_cases hik : k = i
+  · subst hik
+    have : p.testBit k = true := by
+      cases hb : p.testBit k with
+      | true => rfl
+      | false =>
+        exfalso; apply h
+        apply Nat.eq_of_testBit_eq
+        intro j
+        rw [Nat.testBit_and, Nat.testBit_two_pow]
+        by_cases hj : k = j
+        · subst hj; simp [hb]
+        · simp [hj]
+    simp [this]
+  · simp [hik]
+
+theorem orChars_mapChars (m tbl : List (Nat × Nat)) (h : MapOK m tbl) (p acc : Nat) (compact : Bool)
+    (rest : List Ch) :
+    orChars tbl (mapChars m p compact ++ rest) acc = orChars tbl rest (acc ||| (p &&& maskOf m)) := by
+  induction m generalizing acc with
+  | nil => simp [mapChars, maskOf]
+  | cons a t ih =>
+    have ht : MapOK t tbl := ⟨fun x hx => h.1 x (by simp [hx]), h.2⟩
+    obtain ⟨hlk, k, hk⟩ := h.1 a (by simp)
+    rw [mapChars_cons]
+    have hmask : maskOf (a :: t) = a.1 ||| maskOf t := rfl
+    by_cases hbit : p &&& a.1 ≠ 0
+    · rw [if_pos hbit]
+      simp only [List.cons_append, List.nil_append, orChars, hlk]
+      rw [ih ht]
+      congr 1
+      have : p &&& a.1 = a.1 := by rw [hk] at hbit ⊢; exact and_two_pow_of_ne_zero p k hbit
+      rw [hmask, Nat.and_or_distrib_left, this, Nat.or_assoc]
+    · have hz : p &&& a.1 = 0 := by simpa using hbit
+      have hacc : acc ||| (p &&& maskOf (a :: t)) = acc ||| (p &&& maskOf t) := by
+        rw [hmask, Nat.and_or_distrib_left, hz, Nat.zero_or]
+      cases compact with
+      | true =>
+        rw [if_neg hbit]
+        simp only [if_true, List.nil_append]
+        rw [ih ht, hacc]
+      | false =>
+        rw [if_neg hbit]
+        simp only [Bool.false_eq_true, if_false, List.cons_append, List.nil_append, orChars, h.2,
+          Nat.or_zero]
+        rw [ih ht, hacc]
+
+theorem maps_ok : MapOK permMap permParse ∧ MapOK permMapW permParseW ∧
+    MapOK flagMap flagParse ∧ MapOK flagMapW flagParseW := by
+  have pow : ∀ x : Nat, x ∈ [1, 8, 16, 32, 64, 128, 256, 512, 1024, 2048, 4096, 8192, 16384, 32768,
+      16777216, 33554432, 67108864, 134217728, 268435456, 536870912, 1073741824] → ∃ k, x = 2 ^ k := by
+    intro x hx
+    simp only [List.mem_cons, List.not_mem_nil, or_false] at hx
+    rcases hx with h | h | h | h | h | h | h | h | h | h | h | h | h | h | h | h | h | h | h | h | h
+    · exact ⟨0, h⟩
+    · exact ⟨3, h⟩
+    · exact ⟨4, h⟩
+    · exact ⟨5, h⟩
+    · exact ⟨6, h⟩
+    · exact ⟨7, h⟩
+    · exact ⟨8, h⟩
+    · exact ⟨9, h⟩
+    · exact ⟨10, h⟩
+    · exact ⟨11, h⟩
+    · exact ⟨12, h⟩
+    · exact ⟨13, h⟩
+    · exact ⟨14, h⟩
+    · exact ⟨15, h⟩
+    · exact ⟨24, h⟩
+    · exact ⟨25, h⟩
+    · exact ⟨26, h⟩
+    · exact ⟨27, h⟩
+    · exact ⟨28, h⟩
+    · exact ⟨29, h⟩
+    · exact ⟨30, h⟩
+  have key : ∀ m tbl : List (Nat × Nat),
+      (∀ x ∈ m, lookup tbl x.2 = some x.1 ∧ x.1 ∈ [1, 8, 16, 32, 64, 128, 256, 512, 1024, 2048, 4096, 8192,
+        16384, 32768, 16777216, 33554432, 67108864, 134217728, 268435456, 536870912, 1073741824]) →
+      lookup tbl 45 = some 0 → MapOK m tbl :=
+    fun m tbl h1 h2 => ⟨fun x hx => ⟨(h1 x hx).1, pow _ (h1 x hx).2⟩, h2⟩
+  refine ⟨key _ _ (by decide) (by decide), key _ _ (by decide) (by decide),
+    key _ _ (by decide) (by decide), key _ _ (by decide) (by decide)⟩
+
+theorem masks : maskOf permMap = permsNfs4 ∧ maskOf permMapW = permsNfs4 ∧
+    maskOf flagMap = inheritanceNfs4 ∧ maskOf flagMapW = inheritanceNfs4 := by decide
+
+
+/-! ### The parser body on the field shapes the generators produce -/
+
+theorem isintOr_nil (d : Int) : isintOr [] d = d := by simp [isintOr, isint_nil]
+
+theorem isintOr_nondigit (b : List Ch) (d : Int) (h : ∃ c ∈ b, ¬ isDigit c) : isintOr b d = d := by
+  simp [isintOr, isint_nondigit b h]
+
+theorem isintOr_digits (n : Nat) (d : Int) (h : n ≤ 2147483647) : isintOr (digits n) d = (n : Int) := by
+  simp [isintOr, isint_digits n h]
+
+theorem isintOr_rwx (perm : Nat) (d : Int) : isintOr (rwxChars perm) d = d :=
+  isintOr_nondigit _ _ (rwxChars_nondigit perm)
+
+theorem rwxChars_length (perm : Nat) : (rwxChars perm).length = 3 := rfl
+
+/-- user / group word with a qualifier and a trailing id field. -/
+theorem posixRest_named_id (wide : Bool) (fields : Nat) (b : Nat → List Ch) (n type : Nat)
+    (word name : List Ch) (perm i : Nat) (tagObj : Nat)
+    (hf : fields = n + 4) (h0 : b n = word) (hw : word ≠ []) (ht : posixTagSpec word = tagObj)
+    (hobj : tagObj = tagUserObj ∨ tagObj = tagGroupObj)
+    (h1 : b (n + 1) = name) (hn : name ≠ []) (hnd : ∃ c ∈ name, ¬ isDigit c)
+    (h2 : b (n + 2) = rwxChars perm) (h3 : b (n + 3) = digits i) (hi : i ≤ 2147483647) :
+    posixRestCore wide fields b n type =
+      .entry type (rwxVal perm) (if tagObj = tagUserObj then tagUser else tagGroup) (i : Int) name := by
+  have hwl : word.length ≠ 0 := by simpa using hw
+  have hnl : name.length > 0 := List.length_pos_iff.mpr hn
+  have hno : ¬ (tagObj = tagOther ∨ tagObj = tagMask) := by
+    rcases hobj with h | h <;> rw [h] <;> decide
+  have : n + 4 > n + 3 := by omega
+  unfold posixRestCore posixIdCore
+  simp only [h1, h3, isintOr_nondigit name _ hnd, hf, hwl, h0, ht, hno, hobj, if_false, if_true,
+    isintOr_digits i _ hi, true_and, this, posixUserGroupCore, h2, ismode_rwx, hnl, or_true]
+
+/-- user / group word with a qualifier and no id field (the id was -1). -/
+theorem posixRest_named_noid (wide : Bool) (fields : Nat) (b : Nat → List Ch) (n type : Nat)
+    (word name : List Ch) (perm : Nat) (tagObj : Nat)
+    (hf : fields = n + 3) (h0 : b n = word) (hw : word ≠ []) (ht : posixTagSpec word = tagObj)
+    (hobj : tagObj = tagUserObj ∨ tagObj = tagGroupObj)
+    (h1 : b (n + 1) = name) (hn : name ≠ []) (hnd : ∃ c ∈ name, ¬ isDigit c)
+    (h2 : b (n + 2) = rwxChars perm) :
+    posixRestCore wide fields b n type =
+      .entry type (rwxVal perm) (if tagObj = tagUserObj then tagUser else tagGroup) (-1) name := by
+  have hwl : word.length ≠ 0 := by simpa using hw
+  have hnl : name.length > 0 := List.length_pos_iff.mpr hn
+  have hno : ¬ (tagObj = tagOther ∨ tagObj = tagMask) := by
+    rcases hobj with h | h <;> rw [h] <;> decide
+  have : ¬ n + 3 > n + 3 := by omega
+  unfold posixRestCore posixIdCore
+  simp only [h1, isintOr_nondigit name _ hnd, hf, hwl, h0, ht, hno, hobj, if_false, if_true,
+    and_false, this, posixUserGroupCore, h2, ismode_rwx, hnl, or_true]
+
+/-- user / group word with the id printed in place of the name. -/
+theorem posixRest_unnamed (wide : Bool) (fields : Nat) (b : Nat → List Ch) (n type : Nat)
+    (word : List Ch) (perm i : Nat) (tagObj : Nat)
+    (hf : fields = n + 3) (h0 : b n = word) (hw : word ≠ []) (ht : posixTagSpec word = tagObj)
+    (hobj : tagObj = tagUserObj ∨ tagObj = tagGroupObj)
+    (h1 : b (n + 1) = digits i) (hi : i ≤ 2147483647)
+    (h2 : b (n + 2) = rwxChars perm) :
+    posixRestCore wide fields b n type =
+      .entry type (rwxVal perm) (if tagObj = tagUserObj then tagUser else tagGroup) (i : Int) (digits i) := by
+  have hwl : word.length ≠ 0 := by simpa using hw
+  have hnl : (digits i).length > 0 := List.length_pos_iff.mpr (digits_ne_nil i)
+  have hno : ¬ (tagObj = tagOther ∨ tagObj = tagMask) := by
+    rcases hobj with h | h <;> rw [h] <;> decide
+  have hne1 : ¬ ((i : Int) = -1) := by omega
+  unfold posixRestCore posixIdCore
+  simp only [h1, isintOr_digits i _ hi, hf, hwl, h0, ht, hno, hobj, if_false, if_true, hne1,
+    false_and, posixUserGroupCore, h2, ismode_rwx, hnl, or_true]
+
+/-- user_obj / group_obj: empty qualifier field. -/
+theorem posixRest_obj (wide : Bool) (fields : Nat) (b : Nat → List Ch) (n type : Nat)
+    (word : List Ch) (perm : Nat) (tagObj : Nat)
+    (hf : fields = n + 3) (h0 : b n = word) (hw : word ≠ []) (ht : posixTagSpec word = tagObj)
+    (hobj : tagObj = tagUserObj ∨ tagObj = tagGroupObj)
+    (h1 : b (n + 1) = []) (h2 : b (n + 2) = rwxChars perm) :
+    posixRestCore wide fields b n type = .entry type (rwxVal perm) tagObj (-1) [] := by
+  have hwl : word.length ≠ 0 := by simpa using hw
+  have hno : ¬ (tagObj = tagOther ∨ tagObj = tagMask) := by
+    rcases hobj with h | h <;> rw [h] <;> decide
+  have : ¬ n + 3 > n + 3 := by omega
+  unfold posixRestCore posixIdCore
+  simp only [h1, isintOr_nil, hf, hwl, h0, ht, hno, hobj, if_false, if_true, and_false, this,
+    posixUserGroupCore, h2, ismode_rwx, List.length_nil, ne_eq, not_true_eq_false, gt_iff_lt,
+    Nat.lt_irrefl, or_self]
+
+/-- other / mask with the empty second field. -/
+theorem posixRest_om (wide : Bool) (fields : Nat) (b : Nat → List Ch) (n type : Nat)
+    (word : List Ch) (perm : Nat) (tag : Nat)
+    (hf : fields = n + 3) (h0 : b n = word) (hw : word ≠ []) (ht : posixTagSpec word = tag)
+    (hom : tag = tagOther ∨ tag = tagMask)
+    (h1 : b (n + 1) = []) (h2 : b (n + 2) = rwxChars perm) :
+    posixRestCore wide fields b n type = .entry type (rwxVal perm) tag (-1) [] := by
+  have hwl : word.length ≠ 0 := by simpa using hw
+  have h32 : ¬ n + 3 = n + 2 := by omega
+  have : ¬ n + 3 > n + 3 := by omega
+  unfold posixRestCore posixIdCore
+  simp only [h1, isintOr_nil, hf, hwl, h0, ht, hom, if_false, if_true, and_false, this,
+    posixOtherMaskCore, h2, ismode_rwx, List.length_nil, gt_iff_lt, Nat.lt_irrefl, h32, false_and,
+    not_false_eq_true, true_and, and_self]
+
+/-- Solaris style other / mask: the mode directly after the word. -/
+theorem posixRest_om_solaris (wide : Bool) (fields : Nat) (b : Nat → List Ch) (n type : Nat)
+    (word : List Ch) (perm : Nat) (tag : Nat)
+    (hf : fields = n + 2) (h0 : b n = word) (hw : word ≠ []) (ht : posixTagSpec word = tag)
+    (hom : tag = tagOther ∨ tag = tagMask)
+    (h1 : b (n + 1) = rwxChars perm) :
+    posixRestCore wide fields b n type = .entry type (rwxVal perm) tag (-1) [] := by
+  have hwl : word.length ≠ 0 := by simpa using hw
+  have h23 : ¬ n + 2 = n + 3 := by omega
+  have : ¬ n + 2 > n + 3 := by omega
+  unfold posixRestCore posixIdCore
+  simp only [h1, isintOr_rwx, hf, hwl, h0, ht, hom, if_false, if_true, and_false, this,
+    posixOtherMaskCore, ismode_rwx, rwxChars_length, gt_iff_lt, Nat.zero_lt_succ, and_self, h23,
+    false_and, not_true_eq_false, ite_self]
+
+/-! NFSv4 shapes -/
+
+def permChars (wide : Bool) (p : Nat) (compact : Bool) : List Ch :=
+  mapChars (if wide then permMapW else permMap) p compact
+
+def flagChars (wide : Bool) (p : Nat) (compact : Bool) : List Ch :=
+  mapChars (if wide then flagMapW else flagMap) p compact
+
+theorem isNfs4Perms_permChars (wide : Bool) (p acc : Nat) (compact : Bool) :
+    isNfs4Perms wide (permChars wide p compact) acc = (acc ||| (p &&& permsNfs4), true) := by
+  unfold isNfs4Perms permChars
+  have := orChars_mapChars
+  cases wide with
+  | false =>
+    have := orChars_mapChars permMap permParse maps_ok.1 p acc compact []
+    simp only [List.append_nil, orChars, masks.1] at this
+    simpa using this
+  | true =>
+    have := orChars_mapChars permMapW permParseW maps_ok.2.1 p acc compact []
+    simp only [List.append_nil, orChars, masks.2.1] at this
+    simpa using this
+
+theorem isNfs4Flags_flagChars (wide : Bool) (p acc : Nat) (compact : Bool) :
+    isNfs4Flags wide (flagChars wide p compact) acc = (acc ||| (p &&& inheritanceNfs4), true) := by
+  unfold isNfs4Flags flagChars
+  cases wide with
+  | false =>
+    have := orChars_mapChars flagMap flagParse maps_ok.2.2.1 p acc compact []
+    simp only [List.append_nil, orChars, masks.2.2.1] at this
+    simpa using this
+  | true =>
+    have := orChars_mapChars flagMapW flagParseW maps_ok.2.2.2 p acc compact []
+    simp only [List.append_nil, orChars, masks.2.2.2] at this
+    simpa using this
+
+theorem nfs4_perm_back (p : Nat) (h : p &&& (permsNfs4 ||| inheritanceNfs4) = p) :
+    0 ||| (p &&& permsNfs4) ||| (p &&& inheritanceNfs4) = p := by
+  rw [Nat.zero_or, ← Nat.and_or_distrib_left, h]
+
+/-- user / group word: qualifier in field 1, optional id in field 5. -/
+theorem nfs4Core_ug (wide : Bool) (b : Nat → List Ch) (word q tyw last : List Ch) (tag ty p : Nat)
+    (compact : Bool)
+    (h0 : b 0 = word) (ht : nfs4TagSpec word = tag) (hug : tag = tagUser ∨ tag = tagGroup)
+    (h1 : b 1 = q) (h2 : b 2 = permChars wide p compact) (h3 : b 3 = flagChars wide p compact)
+    (h4 : b 4 = tyw) (hty : nfs4TypeSpec tyw = ty) (hty0 : ty ≠ 0) (h5 : b 5 = last)
+    (hp : p &&& (permsNfs4 ||| inheritanceNfs4) = p) :
+    nfs4Core wide b = .entry ty p tag (isintOr last (isintOr q (-1))) q := by
+  have ht0 : tag ≠ 0 := by rcases hug with h | h <;> rw [h] <;> decide
+  unfold nfs4Core
+  simp only [h0, ht, ht0, hug, if_true, if_false, h1, h2, h3, h4, h5, hty, hty0,
+    isNfs4Perms_permChars, isNfs4Flags_flagChars, not_true_eq_false, nfs4_perm_back p hp]
+
+/-- owner@ / group@ / everyone@. -/
+theorem nfs4Core_obj (wide : Bool) (b : Nat → List Ch) (word tyw : List Ch) (tag ty p : Nat)
+    (compact : Bool)
+    (h0 : b 0 = word) (ht : nfs4TagSpec word = tag)
+    (hobj : tag = tagUserObj ∨ tag = tagGroupObj ∨ tag = tagEveryone)
+    (h1 : b 1 = permChars wide p compact) (h2 : b 2 = flagChars wide p compact)
+    (h3 : b 3 = tyw) (hty : nfs4TypeSpec tyw = ty) (hty0 : ty ≠ 0) (h4 : b 4 = [])
+    (hp : p &&& (permsNfs4 ||| inheritanceNfs4) = p) :
+    nfs4Core wide b = .entry ty p tag (-1) [] := by
+  have ht0 : tag ≠ 0 := by rcases hobj with h | h | h <;> rw [h] <;> decide
+  have hnug : ¬ (tag = tagUser ∨ tag = tagGroup) := by
+    rcases hobj with h | h | h <;> rw [h] <;> decide
+  unfold nfs4Core
+  simp only [h0, ht, ht0, hnug, if_true, if_false, h1, h2, h3, h4, hty, hty0,
+    isNfs4Perms_permChars, isNfs4Flags_flagChars, not_true_eq_false, nfs4_perm_back p hp,
+    isintOr_nil, Nat.add_zero]
+
 end LA.Acl
